@@ -77,6 +77,11 @@ Act(ev) ==
       [] ev.op = "Verify"      -> Verify(ev.k)
       [] ev.op = "Reserialise" -> Reserialise
       [] ev.op = "ParseEmptySig" -> ParseEmptySig
+      \* a verify entry point outside the library (ev.a = "cli" | "bulk" | "http"), given the
+      \* serialised envelope and one public key
+      [] ev.op = "VerifyVia"   -> out' = VerifyViaOut(doc, head, sigs, ev.k) /\ UNCHANGED <<doc, head, sigs>>
+
+Observer(ev) == ev.op \in {"Validate", "Verify", "VerifyVia", "ParseEmptySig"}
 
 TInit == /\ doc = BaseDocs["inv"] /\ head = Head0 /\ sigs = <<>> /\ out = "ok"
          /\ i = 1 /\ bad = <<>> /\ skip = 0 /\ nsteps = 0
@@ -99,7 +104,9 @@ Step ==
        ELSE /\ Act(ev)
             /\ nsteps' = nsteps + 1
             /\ IF out' # ev.out
-               THEN skip' = ev.tr /\ bad' = Append(bad, <<i, "outcome", out'>>)
+               THEN /\ bad' = Append(bad, <<i, "outcome", out'>>)
+                    \* a wrong verdict of an observer leaves the rest of the trace interpretable
+                    /\ skip' = IF Observer(ev) /\ StateMatches(ev.st) THEN skip ELSE ev.tr
                ELSE IF ~StateMatches(ev.st)
                THEN skip' = ev.tr /\ bad' = Append(bad, <<i, "state">>)
                ELSE skip' = skip /\ bad' = bad
